@@ -67,17 +67,26 @@ def judge(cfg, obs):
             return ('rx', e[1], e[5])
         return ('rx', e[1], e[2])
     nw = [norm(e) for e in wire]
+    stale = set(cfg.get('stale', ()))
     i = 0
     while i < len(nw):
         a = nw[i]
-        b = nw[i + 1] if i + 1 < len(nw) else None
-        if a[0] != 'tx' or b is None or b[0] != 'rx' or b[1] != a[1] or b[2] != a[2]:
-            if not (obs['status'] != 'ok' and b is None and a[0] == 'tx'):
+        ok = a[0] == 'tx'
+        j = i + 1
+        if ok and a[2] in stale and wire[i][0] == 'tx':
+            # the BMC sent an unrelated frame (payload n + 100) first: the same thread has to read past it
+            if j < len(nw) and nw[j] == ('rx', a[1], a[2] + 100):
+                j += 1
+            elif j < len(nw):
+                ok = False
+        b = nw[j] if j < len(nw) else None
+        if not ok or b is None or b[0] != 'rx' or b[1] != a[1] or b[2] != a[2]:
+            if not (obs['status'] != 'ok' and b is None and ok):
                 fails.append(('c14:interleaved-exchange',
-                              'socket log is not a sequence of complete send/receive pairs of one thread at event %d: %s'
+                              'socket log is not a sequence of complete send/receive exchanges of one thread at event %d: %s'
                               % (i, ' '.join('%s%d' % (e[0], e[1]) for e in wire))))
             break
-        i += 2
+        i = j + 1
     # session sequence numbers strictly increasing in transmission order
     if cfg.get('active', True):
         seqs = [e[3] for e in wire if e[0] == 'tx']     # IPMI datagrams only (ASF has none)
@@ -171,8 +180,8 @@ def term(cfg, obs):
         for kind, val in obs['results'][t]:
             o.append(C.c_opt(C.c_N(bytes.fromhex(val)[1])) if kind == 'ok' else 'None')
         outs.append(C.c_list(o))
-    return 'chk_run %d %s %d %d %s %s %s %s %s %d %d %s' % (
-        cfg.get('max_retries', 0), C.c_bool(cfg.get('active', True)), cfg['nsn0'], cfg['s0'], progs,
+    return 'chk_run %d %s %s %d %d %s %s %s %s %s %d %d %s' % (
+        cfg.get('max_retries', 0), C.c_bool(cfg.get('active', True)), lN(cfg.get('stale', [])), cfg['nsn0'], cfg['s0'], progs,
         lN(obs['model_sched']), C.c_list(tr), C.c_list(wire), C.c_list(outs),
         obs['final_nsn'], obs['final_sseq'], C.c_bool(obs['lock_owner'] is None))
 
@@ -238,6 +247,14 @@ def configs(quick):
         ('3x1', {'threads': [raw(GDI), msg(1), ka(1)], 'nsn0': 63, 's0': WRAP - 1, 'auth': 0}),
         ('3x(2,1,1)', {'threads': [raw(GDI, (0x0a, 0x10)), raw(GDI), ka(1)], 'nsn0': 7, 's0': 0, 'auth': 2}),
     ]
+    # the BMC sends an unrelated frame (stale rq_seq) before the reply to the listed datagrams;
+    # max_retries >= 1 lets the code read past it (the branch repaired by F4)
+    cs += [
+        ('2x2-stale', {'threads': [raw(GDI, GDI), ka(2)], 'nsn0': 63, 's0': 9, 'auth': 0,
+                       'max_retries': 1, 'stale': [0, 1, 3]}),
+        ('3x1-stale', {'threads': [raw(GDI), msg(1), ka(1)], 'nsn0': 0, 's0': WRAP, 'auth': 0,
+                       'max_retries': 2, 'stale': [1, 2]}),
+    ]
     if not quick:
         cs += [
             ('3x2', {'threads': [raw(GDI, GDI), msg(2), ka(2)], 'nsn0': 61, 's0': WRAP - 3, 'auth': 0}),
@@ -267,6 +284,10 @@ def run(ctx):
         if dup:
             hist['schedules with two wire-identical IPMB headers (duplicate rq_seq)'] = \
                 hist.get('schedules with two wire-identical IPMB headers (duplicate rq_seq)', 0) + 1
+        nst = sum(1 for e in obs['wire'] if e[0] == 'rx' and e[5] >= 100)
+        if nst:
+            hist['schedules in which an unrelated frame was read and dropped'] = \
+                hist.get('schedules in which an unrelated frame was read and dropped', 0) + 1
         if any(e[3] == 1 for e in tx) and cfg['s0'] > 1:
             hist['schedules crossing the 32-bit session sequence wrap'] = \
                 hist.get('schedules crossing the 32-bit session sequence wrap', 0) + 1
@@ -335,7 +356,8 @@ def run(ctx):
     res.oracle_failures = list(fails.values())
     res.exhaustive = False
     res.assumptions = [
-        'in-order reference BMC that answers every datagram (no loss, no delay, no foreign frames: those are C04)',
+        'in-order reference BMC that answers every datagram, optionally preceded by ONE unrelated frame (stale rq_seq) '
+        'with max_retries >= 1 (no loss, no delay, no frames outside an exchange: those are C04)',
         'direct (non-bridged) targets; default rx_filter options',
         'atomicity of one access to next_sequence_number / lock / socket; CPython byte code and the GIL are not modelled',
     ]
